@@ -96,6 +96,30 @@ def batch_conditions(ctx, K):
     return rows, probs
 
 
+def _writes_into_output(ctx, fx, call):
+    """the callee returns nothing and is handed the very vector the presses of this path are pushed onto: whatever it
+    emits is on the output at the moment the call returns (so before everything that follows the call)"""
+    try:
+        cb = ctx.body(call.key)
+    except Exception:
+        return False
+    if cb.ltypes.get(0) != "()":
+        return False
+    outs = {mir.strip(e.ev.b[0]) for e in fx.effects if e.kind == "EMIT" and e.ev is not None and e.ev.b}
+    ret = fx.path.outcome[1] if fx.path.outcome[0] == "return" and isinstance(fx.path.outcome[1], tuple) else None
+    for a in call.aux:
+        if not isinstance(a, tuple):
+            continue
+        a = mir.strip(a)
+        if a in outs:
+            return True
+        # ... or the vector that becomes the function's result (the presses are pushed onto it inside the press loop)
+        if ret is not None and (mir.mentions(ret, a) or (a[0] == "field" and a[2] == "events" and mir.mentions(ret, mir.strip(a[1])))) \
+                and a[0] in ("call", "var", "field"):
+            return True
+    return False
+
+
 def _cond_name(a, v, mp):
     if isinstance(a, tuple) and a[0] == "call" and a[1] == MOD + "is_action_mapping" and mir.strip(a[2][0]) == mp:
         return "action_mapping" if v else "!action_mapping"
@@ -146,7 +170,7 @@ def run(ctx):
             # ... and the releases it returns enter the output stream before the presses do
             if len(rel) == 1:
                 apps = [e for e in fx.effects if e.kind == "APPEND" and mir.strip(e.key) == rel[0].ev.c]
-                ok3 = len(apps) == 1 and rel[0].pos < apps[0].pos < lp[0]
+                ok3 = (len(apps) == 1 and rel[0].pos < apps[0].pos < lp[0]) or _writes_into_output(ctx, fx, rel[0])
                 ck.ob("C04-R1", ANM, "key-producing-mapping:the-releases-are-put-on-the-output-before-any-press", ok3,
                       detail=None if ok3 else "the events returned by release_action_mappings are appended %s" % ("after the press loop" if apps else "nowhere on this path"))
         elif am == [False]:
@@ -194,7 +218,7 @@ def run(ctx):
                   detail="%d/%d" % (len(rel), len(rab)))
             for c in rel + rab:
                 apps = [e for e in fx.effects if e.kind == "APPEND" and mir.strip(e.key) == c.ev.c]
-                ok3 = len(apps) == 1 and c.pos < apps[0].pos < own[0].pos
+                ok3 = (len(apps) == 1 and c.pos < apps[0].pos < own[0].pos) or _writes_into_output(ctx, fx, c)
                 ck.ob("C04-R1", NP, "non-modifier-pass-through:those-releases-are-put-on-the-output-before-the-press", ok3)
         elif act == [False]:
             seen.add("modifier")
